@@ -24,6 +24,47 @@ from .loader import FuncInfo, Program
 from .build import effective_body
 
 
+def _root(e):
+    while isinstance(e, (ast.Attribute, ast.Subscript)):
+        e = e.value
+    return e.id if isinstance(e, ast.Name) else None
+
+
+def _read_before_rebound(stmts, v) -> bool:
+    """Is the name read in these statements before anything rebinds it?  (Names bound by a comprehension live in the comprehension's
+    own scope; textual order decides otherwise: a `for v in ...` header precedes its body.)"""
+    names = []
+
+    def visit(node):
+        if isinstance(node, (ast.ListComp, ast.SetComp, ast.DictComp, ast.GeneratorExp)):
+            bound = {x.id for g in node.generators for x in ast.walk(g.target) if isinstance(x, ast.Name)}
+            if v in bound:
+                for g in node.generators[:1]:
+                    visit(g.iter)                      # only the first iterable is evaluated in the enclosing scope
+                return
+        if isinstance(node, ast.Name) and node.id == v:
+            names.append(node)
+        for c in ast.iter_child_nodes(node):
+            visit(c)
+    for st in stmts:
+        visit(st)
+    names.sort(key=lambda x: (x.lineno, x.col_offset))
+    return bool(names) and isinstance(names[0].ctx, ast.Load)
+
+
+def _chain(e):
+    """attribute path of an access, subscripts ignored: self.clusters[k].size -> ['self', 'clusters', 'size']"""
+    out = []
+    while isinstance(e, (ast.Attribute, ast.Subscript)):
+        if isinstance(e, ast.Attribute):
+            out.append(e.attr)
+        e = e.value
+    if isinstance(e, ast.Name):
+        out.append(e.id)
+        return out[::-1]
+    return []
+
+
 class CannotInline(Exception):
     pass
 
@@ -349,6 +390,12 @@ class Normalizer:
                                 del lst[i]
                                 self.log.append(f"{f.qualname}:{b.lineno} <- single-use temporary `{t}` folded into the assignment")
                                 continue
+                            if isinstance(b, ast.Raise) and isinstance(b.exc, ast.Name) and b.exc.id == t \
+                                    and not (b.cause is not None and any(isinstance(x, ast.Name) and x.id == t for x in ast.walk(b.cause))):
+                                b.exc = a.value
+                                del lst[i]
+                                self.log.append(f"{f.qualname}:{b.lineno} <- single-use temporary `{t}` folded into the raise")
+                                continue
                             if isinstance(b, ast.Return) and isinstance(b.value, ast.Name) and b.value.id == t and lst is f.node.body and body == [a, b]:
                                 b.value = a.value
                                 del lst[i]
@@ -413,7 +460,13 @@ class Normalizer:
                 if v0 in taken:
                     continue
                 new_hi = ast.BinOp(left=hi, op=ast.Sub() if c > 0 else ast.Add(), right=ast.Constant(abs(c)))
-                n.iter.args = [ast.Constant(0), new_hi]
+                # (E + c) - c is E: fold the constant when the upper bound is already written as `E + k` / `E - k`
+                if isinstance(hi, ast.BinOp) and isinstance(hi.op, (ast.Add, ast.Sub)) and isinstance(hi.right, ast.Constant) \
+                        and isinstance(hi.right.value, int) and not isinstance(hi.right.value, bool):
+                    k = hi.right.value if isinstance(hi.op, ast.Add) else -hi.right.value
+                    rest = k - c
+                    new_hi = hi.left if rest == 0 else ast.BinOp(left=hi.left, op=ast.Add() if rest > 0 else ast.Sub(), right=ast.Constant(abs(rest)))
+                n.iter.args = [new_hi]
                 n.target = ast.Name(v0, ast.Store())
                 shift = ast.Assign(targets=[ast.Name(v, ast.Store())],
                                    value=ast.BinOp(left=ast.Name(v0, ast.Load()), op=ast.Add() if c > 0 else ast.Sub(), right=ast.Constant(abs(c))))
@@ -474,17 +527,35 @@ class Normalizer:
                             continue
                         if any(isinstance(x, ast.Name) and x.id == v and not isinstance(x.ctx, ast.Load) for x in inner):
                             continue
-                        bnames = {x.id for x in ast.walk(bound) if isinstance(x, ast.Name)}
-                        if any(isinstance(x, (ast.Call, ast.Attribute, ast.Subscript)) for x in ast.walk(bound)):
+                        bnames = {x.id for x in ast.walk(bound) if isinstance(x, ast.Name)} - {"len"}
+                        # the bound is re-evaluated by the while loop on every round and once by range(): it must be a plain
+                        # expression (names, attributes, constant subscripts, arithmetic, len(name)) of things the body leaves alone
+                        plain = all(isinstance(x, (ast.Name, ast.Attribute, ast.Constant, ast.BinOp, ast.UnaryOp, ast.operator, ast.unaryop, ast.expr_context,
+                                                   ast.Subscript, ast.Call)) for x in ast.walk(bound)) and all(
+                            (isinstance(x.func, ast.Name) and x.func.id == "len" and len(x.args) == 1 and not x.keywords) for x in ast.walk(bound) if isinstance(x, ast.Call)) and all(
+                            isinstance(x.slice, ast.Constant) for x in ast.walk(bound) if isinstance(x, ast.Subscript))
+                        if not plain:
                             continue
                         if any(isinstance(x, ast.Name) and x.id in bnames and not isinstance(x.ctx, ast.Load) for x in inner):
                             continue
+                        if any(isinstance(x, ast.Call) and isinstance(x.func, ast.Attribute) and _root(x.func.value) in bnames
+                               and x.func.attr in ("append", "extend", "insert", "pop", "remove", "clear", "resize", "add", "discard", "update") for x in inner):
+                            continue
+                        inner_of = {id(x.value) for x in ast.walk(bound) if isinstance(x, (ast.Attribute, ast.Subscript))}
+                        bound_chains = [_chain(x) for x in ast.walk(bound) if isinstance(x, (ast.Attribute, ast.Subscript, ast.Name)) and id(x) not in inner_of]
+                        clash = False
+                        for x in inner:
+                            if isinstance(x, (ast.Assign, ast.AugAssign)):
+                                for t in (x.targets if isinstance(x, ast.Assign) else [x.target]):
+                                    if isinstance(t, (ast.Attribute, ast.Subscript)):
+                                        tc = _chain(t)
+                                        if any(bc[:len(tc)] == tc or tc[:len(bc)] == bc for bc in bound_chains if bc and tc):
+                                            clash = True
+                        if clash:
+                            continue
                         # the counter must not be read after the loop (in this block or, conservatively, anywhere later in the function)
-                        later = [x for st in lst[i + 1:] for x in ast.walk(st)]
-                        if any(isinstance(x, ast.Name) and x.id == v and isinstance(x.ctx, ast.Load) for x in later):
-                            nxt = next((x for st in lst[i + 1:] for x in ast.walk(st) if isinstance(x, ast.Name) and x.id == v), None)
-                            if nxt is None or isinstance(nxt.ctx, ast.Load):
-                                continue
+                        if _read_before_rebound(lst[i + 1:], v):
+                            continue
                         one = ast.Constant(1)
                         if down:
                             stop = ast.BinOp(bound, ast.Sub(), one) if isinstance(op, ast.GtE) else bound
@@ -500,8 +571,122 @@ class Normalizer:
                         self.log.append(f"{f.qualname}:{w.lineno} <- counting while loop read as for {v} in range(...)")
                         i -= 1
 
+    def _canonical_chained_assignments(self):
+        """`a = b = E` (plain names) is `a = E; b = a`: E is evaluated once and both names are bound to that object."""
+        for f in self.prog.functions.values():
+            for n in ast.walk(f.node):
+                for fld in ("body", "orelse", "finalbody"):
+                    lst = getattr(n, fld, None)
+                    if not (isinstance(lst, list) and lst and isinstance(lst[0], ast.stmt)):
+                        continue
+                    out = []
+                    changed = False
+                    for st in lst:
+                        if isinstance(st, ast.Assign) and len(st.targets) > 1 and all(isinstance(t, ast.Name) for t in st.targets):
+                            first = st.targets[0]
+                            out.append(ast.copy_location(ast.Assign(targets=[first], value=st.value), st))
+                            for t in st.targets[1:]:
+                                out.append(ast.copy_location(ast.Assign(targets=[t], value=ast.Name(first.id, ast.Load())), st))
+                            for x in out[-len(st.targets):]:
+                                ast.fix_missing_locations(x)
+                            changed = True
+                            self.log.append(f"{f.qualname}:{st.lineno} <- chained assignment split")
+                        elif isinstance(st, ast.Assign) and len(st.targets) > 1 and not any(isinstance(x, (ast.Call, ast.NamedExpr, ast.Await)) for x in ast.walk(st.value)) \
+                                and all(isinstance(t, (ast.Name, ast.Attribute, ast.Subscript)) for t in st.targets):
+                            # a = obj.f = E with a call-free E (a name, an attribute path, arithmetic): each target gets E, left to right;
+                            # no target may feed E or a later target's own expression
+                            tnames = {x.id for t in st.targets for x in ast.walk(t) if isinstance(x, ast.Name) and not isinstance(x.ctx, ast.Load)}
+                            reads = {x.id for x in ast.walk(st.value) if isinstance(x, ast.Name)} | \
+                                {x.id for t in st.targets for x in ast.walk(t) if isinstance(x, ast.Name) and isinstance(x.ctx, ast.Load)}
+                            if tnames & reads:
+                                out.append(st)
+                                continue
+                            for t in st.targets:
+                                out.append(ast.fix_missing_locations(ast.copy_location(ast.Assign(targets=[t], value=copy.deepcopy(st.value)), st)))
+                            changed = True
+                            self.log.append(f"{f.qualname}:{st.lineno} <- chained assignment split")
+                        else:
+                            out.append(st)
+                    if changed:
+                        lst[:] = out
+
+    def _canonical_continues(self):
+        """Inside a loop body `if c: A; continue` followed by REST is `if c: A else: REST` (when the `if` has no else and its body ends
+        with the `continue`): the same iterations run the same statements, written without a jump."""
+        for f in self.prog.functions.values():
+            for loop in [n for n in ast.walk(f.node) if isinstance(n, (ast.For, ast.While))]:
+                changed = True
+                while changed:
+                    changed = False
+                    stack = [loop.body]
+                    while stack:
+                        lst = stack.pop()
+                        for i, st in enumerate(lst):
+                            if isinstance(st, ast.If) and not st.orelse and st.body and isinstance(st.body[-1], ast.Continue) and i + 1 < len(lst) \
+                                    and lst is loop.body:
+                                rest = lst[i + 1:]
+                                st.body = st.body[:-1] or [ast.copy_location(ast.Pass(), st)]
+                                st.orelse = rest
+                                del lst[i + 1:]
+                                self.log.append(f"{f.qualname}:{st.lineno} <- `continue` written as an else branch")
+                                changed = True
+                                break
+                        if changed:
+                            break
+
+    def _canonical_partials(self):
+        """`p = functools.partial(f, *A, **K)` bound once to a local that is only called (`p(x)`) or mapped (`map(p, xs)`) is f with
+        the frozen arguments written out: `f(*A, x, **K)` and `(f(*A, v, **K) for v in xs)`."""
+        for f in self.prog.functions.values():
+            for n in ast.walk(f.node):
+                for fld in ("body", "orelse", "finalbody"):
+                    lst = getattr(n, fld, None)
+                    if not (isinstance(lst, list) and lst and isinstance(lst[0], ast.stmt)):
+                        continue
+                    for i, st in enumerate(list(lst)):
+                        if not (isinstance(st, ast.Assign) and len(st.targets) == 1 and isinstance(st.targets[0], ast.Name) and isinstance(st.value, ast.Call)):
+                            continue
+                        c = st.value
+                        fn_txt = ast.unparse(c.func)
+                        if fn_txt not in ("functools.partial", "partial") or not c.args or any(isinstance(a, ast.Starred) for a in c.args) \
+                                or any(k.arg is None for k in c.keywords):
+                            continue
+                        p = st.targets[0].id
+                        occ = [x for x in ast.walk(f.node) if isinstance(x, ast.Name) and x.id == p]
+                        stores = [x for x in occ if not isinstance(x.ctx, ast.Load)]
+                        loads = [x for x in occ if isinstance(x.ctx, ast.Load)]
+                        if len(stores) != 1 or not loads:
+                            continue
+                        calls = [x for x in ast.walk(f.node) if isinstance(x, ast.Call) and isinstance(x.func, ast.Name) and x.func.id == p]
+                        maps = [x for x in ast.walk(f.node) if isinstance(x, ast.Call) and isinstance(x.func, ast.Name) and x.func.id == "map"
+                                and len(x.args) == 2 and isinstance(x.args[0], ast.Name) and x.args[0].id == p and not x.keywords]
+                        if len(calls) + len(maps) != len(loads):
+                            continue
+                        target, frozen, frozen_kw = c.args[0], list(c.args[1:]), list(c.keywords)
+                        for x in calls:
+                            x.func = copy.deepcopy(target)
+                            x.args = [copy.deepcopy(a) for a in frozen] + x.args
+                            x.keywords = x.keywords + [copy.deepcopy(k) for k in frozen_kw]
+                            ast.fix_missing_locations(x)
+                        for x in maps:
+                            self.counter += 1
+                            v = f"item__{self.counter}"
+                            call = ast.Call(func=copy.deepcopy(target), args=[copy.deepcopy(a) for a in frozen] + [ast.Name(v, ast.Load())],
+                                            keywords=[copy.deepcopy(k) for k in frozen_kw])
+                            gen = ast.GeneratorExp(elt=call, generators=[ast.comprehension(target=ast.Name(v, ast.Store()), iter=x.args[1], ifs=[], is_async=0)])
+                            ast.copy_location(gen, x)
+                            ast.fix_missing_locations(gen)
+                            _replace_expr(f.node, x, gen)
+                        lst.remove(st)
+                        if not lst:
+                            lst.append(ast.copy_location(ast.Pass(), st))
+                        self.log.append(f"{f.qualname}:{st.lineno} <- functools.partial `{p}` written out at its uses")
+
     def run(self):
         self._canonical_annotated_assignments()
+        self._canonical_partials()
+        self._canonical_continues()
+        self._canonical_chained_assignments()
         self._canonical_counting_whiles()
         self._canonical_pool_calls()
         self._canonical_sorts()
